@@ -33,16 +33,23 @@ ASSUMPTIONS = [
     "dense reference: forward-mode jax.jacfwd of jax.grad(energy) + numpy.linalg.solve/eigvalsh (float64) are correct",
     "tolerance of a cotangent = ||G_k||_2 (10*max(cg_tol, cg_inexact_solve_ratio*||v||) + 1e-9*||v||)/lambda_min(H): the adjoint "
     "CG's own stopping rule times the conditioning, x10 safety, plus a rounding floor calibrated on the unchanged tree "
-    "(observed <= 1e-13 relative, floor 1e-9 is > 100x larger); applies only when the recorded adjoint solve ended 'interior'",
-    "finite-difference spot checks (Richardson, 4 forward solves at tol 1e-11/1e-12): allowed 1e-5 of the cotangent scale, "
-    "calibrated (observed <= 3e-8); skipped (counted) when the J2 yield set changes inside the stencil",
-    "helper VJPs vs forward-mode dense Jacobians: allowed 1e-10 * max_i sum_j |J_ji||v_j| (rounding bound; observed <= 1e-15)",
-    "adjoint function space vs direct construction: allowed 1e-14 * max|array| (observed 0)",
-    "the energies of class fe_* are harness code assembled from optimism's Mechanics/FunctionSpace factories as in its inverse tests",
+    "(observed <= 1e-12 of ||G||.||v||/lambda_min with tight settings; the floor 1e-9 is > 100x larger); applies only when the recorded "
+    "adjoint solve ended 'interior'. Load-step chains: sum over steps of ||H_k dU_k/dtheta||_2 times the same per-step bound",
+    "finite differences through forward solves (Richardson, 4 solves at tol 1e-11): allowed 1e-7 of the cotangent scale + 1e-9, "
+    "calibrated (observed <= 5e-11 small, <= 2e-11 FE); skipped (counted) when the J2 yield set changes inside the stencil",
+    "Objective closures (hessian_vec, vec_hessian, vec_jacobian_p0/1/2/4, jacobian_p_vec, jacobian_p2_vec) vs dense Jacobians: "
+    "1e-11 * sum_j |J_ij||v_j| (rounding bound; observed <= 5e-16)",
+    "helper VJPs vs forward-mode dense Jacobians: allowed 1e-10 * max_i sum_j |J_ji||v_j| (rounding bound; observed <= 2e-14, J2 "
+    "finite kinematics); helper finite differences over a directly constructed function space: 1e-6 (observed <= 9e-10)",
+    "adjoint function space vs direct construction: allowed 1e-14 * max|array| (observed 0); its coordinate derivative vs Richardson "
+    "differences of the direct constructor: 1e-7 (observed <= 2e-14)",
+    "the energies of class fe are harness code assembled from optimism's Mechanics/FunctionSpace factories as in its inverse tests; "
+    "sampled states at which the energy derivatives are not finite (inverted element) are vacuous",
 ]
 REQUIRED = {
     "all": {
-        "class:small_single": 8, "class:small_chain": 4, "class:small_legacy_chain": 2, "class:fe": 2, "class:helper": 2,
+        "class:small_single": 8, "class:small_corner": 4, "corner_zero_cotangent": 1, "corner_converged_guess": 1,
+        "corner_zero_params": 1, "corner_same_p": 1, "class:small_chain": 4, "class:small_legacy_chain": 2, "class:fe": 2, "class:helper": 2,
         "class:adjoint_space": 2,
         "ift_cotangent_compared": 200, "slot0_compared": 40, "slot1_compared": 20, "slot2_compared": 40, "slot4_compared": 20,
         "entry_state": 20, "entry_design": 20, "settings_default": 20, "settings_tight": 20,
@@ -50,11 +57,11 @@ REQUIRED = {
         "adjoint_exit_interior": 80, "grad_qoi_compared": 20, "chain_gradient_compared": 8, "chain_steps": 16,
         "fd_through_solve": 8, "backward_after_p_mutation": 40,
         "fe_chain_gradient_compared": 2, "fe_plastic_points": 1,
-        "helper_product_compared": 10, "helper_fd_compared": 2, "helper_yielded_points": 1,
+        "objective_closure_compared": 40, "helper_product_compared": 10, "helper_fd_compared": 2, "helper_yielded_points": 1,
         "afs_arrays_compared": 12, "afs_derivative_compared": 2,
     },
     "quick": {},
-    "thorough": {"ift_cotangent_compared": 5000, "chain_gradient_compared": 200, "fe_chain_gradient_compared": 20,
+    "thorough": {"class:small_search": 20, "search_children": 200, "ift_cotangent_compared": 5000, "chain_gradient_compared": 200, "fe_chain_gradient_compared": 20,
                  "helper_product_compared": 100, "afs_arrays_compared": 100},
 }
 WATCHDOG_S = {"quick": 2400, "thorough": 5 * 3600}
@@ -62,7 +69,9 @@ MAX_VACUOUS_FRACTION = 0.2
 
 SAFETY = 10.0
 RND = 1e-9
-FD_TOL = 1e-5
+FD_TOL = 1e-7          # finite differences through forward solves / direct function-space construction
+HELPER_FD_TOL = 1e-6   # finite differences of the J2 state update (root-find noise 1e-10*Y0 enters the stencil)
+HELPER_TOL = 1e-10     # reverse-mode helper vs forward-mode dense Jacobian, relative to sum_j |J_ji||v_j|
 D6_KEY = "reverse-rule-raises-TypeError-at-adjoint-solve"
 LEGACY_KEY = "legacy-solve-backward-reads-nondesign-slots-from-mutated-objective"
 
@@ -110,6 +119,17 @@ def build_cases(tier, seed):
             for i in range(m):
                 cases.append({"cls": cls, "group": "s%02d" % ci, "cfg": cfg, "cost": 1.0 + cfg["n"] / 10.0,
                               "seed": derive_seed(seed, PROPERTY, cls, key, i)})
+    kinds = ["zero_cotangent", "converged_guess", "zero_params", "same_p"]
+    for ci, cfg in enumerate(cfgs):
+        for j, kind in enumerate(kinds):
+            if quick and (ci + j) % 4 != 0:
+                continue
+            cases.append({"cls": "small_corner", "group": "s%02d" % ci, "cfg": cfg, "cost": 1.0, "knobs": {"kind": kind},
+                          "seed": derive_seed(seed, PROPERTY, "corner", small_cfg_key(cfg), kind)})
+    if not quick:
+        for ci, cfg in enumerate(cfgs):
+            cases.append({"cls": "small_search", "group": "s%02d" % ci, "cfg": cfg, "cost": 12.0, "rounds": 16,
+                          "seed": derive_seed(seed, PROPERTY, "search", small_cfg_key(cfg))})
     # FE configurations
     fes = [fe_cfg(*c) for c in _FE_QUICK]
     if not quick:
@@ -259,12 +279,41 @@ def _compare_slots(res, st, v, cp, p, sname, clause, mech=None, extra=None):
         d = {"slot": k, "settings": sname, "ref_norm": rn, "cond": st.lmax / st.lmin}
         if extra:
             d.update(extra)
-        res.bound(clause, err, allowed, d, mech)
+        res.bound(clause + "_" + sname, err, allowed, d, mech)
         res.count("ift_cotangent_compared")
         res.count("slot%d_compared" % k)
-        if not (rn > 1e3 * allowed):
+        if not (rn > 10.0 * allowed):
             nz = False
     return nz
+
+
+def _closures(res, prob, st, x, p, rng):
+    """The Objective's jitted derivative closures the reverse rules are assembled from, against the dense Jacobians
+    (rounding-level agreement: same primal code, different differentiation mode)."""
+    import jax.numpy as np
+    obj = prob["obj"]
+    obj.p = p
+    n = st.n
+    w = rng.standard_normal(n)
+    wj = np.asarray(w)
+    TOL = 1e-11
+    hv = _np(obj.hessian_vec(x, wj))
+    res.bound("objective_hessian_vec", float(onp.max(onp.abs(hv - st.H @ w))), TOL * float(onp.max(onp.abs(st.H) @ onp.abs(w))), {})
+    vh = _np(obj.vec_hessian(x, wj)[0])
+    res.bound("objective_vec_hessian", float(onp.max(onp.abs(vh - w @ st.H))), TOL * float(onp.max(onp.abs(w) @ onp.abs(st.H))), {})
+    fns = {0: obj.vec_jacobian_p0, 1: obj.vec_jacobian_p1, 2: obj.vec_jacobian_p2, 4: obj.vec_jacobian_p4}
+    for k in st.slots:
+        got = _np(fns[k](x, wj)[0]).reshape(-1)
+        ref = w @ st.G[k]
+        res.bound("objective_vec_jacobian_p%d" % k, float(onp.max(onp.abs(got - ref))), TOL * max(float(onp.max(onp.abs(w) @ onp.abs(st.G[k]))), 1e-300), {})
+        res.count("objective_closure_compared")
+    for k, fn in ((0, obj.jacobian_p_vec), (2, obj.jacobian_p2_vec)):
+        if k in st.slots:
+            vp = rng.standard_normal(st.shape[k])
+            got = _np(fn(x, np.asarray(vp))).reshape(-1)
+            ref = st.G[k] @ vp.reshape(-1)
+            res.bound("objective_jacobian_p%d_vec" % k, float(onp.max(onp.abs(got - ref))), TOL * max(float(onp.max(onp.abs(st.G[k]) @ onp.abs(vp.reshape(-1)))), 1e-300), {})
+            res.count("objective_closure_compared")
 
 
 def _single(res, prob, entry, sname, x0, p, p_before, p_after, vs, rng):
@@ -298,6 +347,8 @@ def _single(res, prob, entry, sname, x0, p, p_before, p_after, vs, rng):
         return None
     moved = float(onp.linalg.norm(_np(Uu) - _np(x0))) > 1e-6
     nontrivial = moved
+    if sname == "tight" and entry == "state":
+        _closures(res, prob, st, Uu, p, rng)
     for v in vs:
         obj.p = p_after          # a later load step has overwritten the objective's parameters before the backward pass
         res.count("backward_after_p_mutation")
@@ -339,7 +390,7 @@ def _single(res, prob, entry, sname, x0, p, p_before, p_after, vs, rng):
         (val, U2), gr = jax.value_and_grad(qoi, argnums=(0, 1), has_aux=True)(x0, arg)
     except Exception as e:  # noqa
         res.violate("derivative_exists", {"stage": "jax.grad", "entry": entry, "exc": "%s: %s" % (type(e).__name__, str(e)[:200])}, _exc_mechanism(e))
-        return st
+        return {"st": st, "nontrivial": False}
     ok, _ = _adjoint_exits(res)
     st2 = ift.StepRef(prob["derivs"](U2, p), p)
     if ok and float(onp.linalg.norm(st2.g)) < s.tol and st2.finite() and st2.lmin > 0:
@@ -355,7 +406,7 @@ def _single(res, prob, entry, sname, x0, p, p_before, p_after, vs, rng):
             cp = {2: _np(gr[1]) - cq[2] * _np(p[2])}
         _compare_slots(res, st2, vq, cp, p, sname, "ift_cotangent", extra={"entry": entry, "via": "grad"})
         res.count("grad_qoi_compared")
-    return st if nontrivial else None
+    return {"st": st, "nontrivial": bool(nontrivial)}
 
 
 def _fd_through_solve(res, prob, p, Uu, st, ct, v, rng, h, active=None):
@@ -500,9 +551,20 @@ def _chain(res, prob, entry, sname, x0, theta, app, scales, vs, w, clause="chain
     allowed += 100.0 * info["self_mismatch"]
     err = float(onp.linalg.norm(got - gref))
     mech = None
-    if legacy_mutate:
-        mech = LEGACY_KEY
-    res.bound(clause, err, allowed, {"entry": entry, "settings": sname, "steps": K, "ref_norm": info["scale"],
+    if legacy_mutate and entry == "design" and err > allowed:
+        # honest-failure signature of the open finding: the returned gradient is the one obtained when every step's
+        # backward pass is evaluated with the non-design slots objective.p holds at the END of the chain
+        alt = []
+        for k in range(K):
+            pk = params(k, th0, th0.get(1))
+            pl = params(K - 1, th0, th0.get(1))
+            pa = ift.with_slot(pl, 2, pk[2])
+            alt.append(ift.StepRef(prob["derivs"](Us[k], pa), pa))
+        galt, _ = ift.chain_reference(alt, lay, ntheta, scales, vs, None)
+        if float(onp.linalg.norm(got - galt)) <= allowed:
+            mech = LEGACY_KEY
+            res.count("legacy_signature_matched")
+    res.bound(clause + "_" + sname, err, allowed, {"entry": entry, "settings": sname, "steps": K, "ref_norm": info["scale"],
                                      "reference_forward_vs_reverse": info["self_mismatch"]}, mech)
     res.count("chain_gradient_compared")
     res.count("chain_steps", K)
@@ -512,42 +574,63 @@ def _chain(res, prob, entry, sname, x0, theta, app, scales, vs, w, clause="chain
         res.count("slot%d_compared" % sl)
         res.count("ift_cotangent_compared")
     return {"steps": steps, "Us": Us, "Ss": Ss, "info": info, "allowed": allowed, "got": got, "gref": gref, "lay": lay,
-            "nontrivial": info["scale"] > 1e3 * allowed}
+            "nontrivial": info["scale"] > 10.0 * allowed}
 
 
-def _run_small_single(case, res):
+def _small_inputs(cfg, seed, knobs):
+    """All inputs of a small_single evaluation from (seed, knobs).  knobs (all optional) steer the margin search and the
+    corner classes: cond (condition number of A), sscale (scale of slot values), vscale (scale of cotangents), x0scale,
+    kind in {None, 'zero_cotangent', 'converged_guess', 'zero_params', 'same_p'}."""
     import jax.numpy as np
     from vlib.gen import c07_problems as gp
+    rng = rng_of(seed)
+    a, cond = gp.small_coeffs(cfg, rng, cond=knobs.get("cond"))
+    ss = float(knobs.get("sscale", 1.0))
+    kind = knobs.get("kind")
+    draws = [gp.small_slot_values(cfg, rng) for _ in range(3)]
+    if kind == "zero_params":
+        draws[0] = {k: 0.0 * v for k, v in draws[0].items()}
+    if kind == "same_p":
+        draws[1] = draws[0]
+        draws[2] = draws[0]
+    ps = [gp.make_params({k: ss * v for k, v in d.items()}, a) for d in draws]
+    x0 = np.asarray(float(knobs.get("x0scale", 0.1)) * rng.standard_normal(cfg["n"]))
+    return rng, a, cond, ps, x0
+
+
+def _small_eval(res, prob, cfg, seed, knobs, combos, fd=True):
+    import jax
+    import jax.numpy as np
+    from optimism import EquationSolver as es
+    from vlib.gen.c07_problems import _quiet
     from vlib.oracles import c07_ift as ift
-    cfg = case["cfg"]
-    prob = _problem(cfg)
-    rng = rng_of(case["seed"])
-    a, cond = gp.small_coeffs(cfg, rng)
-    p = gp.make_params(gp.small_slot_values(cfg, rng), a)
-    p_prev = gp.make_params(gp.small_slot_values(cfg, rng), a)
-    p_next = gp.make_params(gp.small_slot_values(cfg, rng), a)
-    x0 = np.asarray(0.1 * rng.standard_normal(cfg["n"]))
-    res.count("dim_%02d" % cfg["n"])
-    res.count("slots_" + cfg["slots"])
-    nt = 0
+    rng, a, cond, (p, p_prev, p_next), x0 = _small_inputs(cfg, seed, knobs)
+    kind = knobs.get("kind")
+    if kind == "converged_guess":       # start the differentiated solve at the equilibrium itself
+        prob["obj"].p = p
+        with _quiet():
+            x0, _ = es.nonlinear_equation_solve(prob["obj"], x0, p, _settings("tight"), useWarmStart=False)
+    vscale = float(knobs.get("vscale", 1.0))
+    nconv, nnt = 0, 0
     last = None
-    for entry in ("state", "design"):
+    for entry, sname in combos:
         if entry == "design" and p[2] is None:
             continue
-        for sname in ("default", "tight"):
-            vs = [rng.standard_normal(cfg["n"]) * 10.0 ** rng.uniform(-2, 2) for _ in range(2)]
-            if entry == "state":
-                pb, pa = p_prev, p_next
-            else:   # the legacy entry point can only restore the design slot: the other slots stay what the objective holds
-                pb, pa = ift.with_slot(p, 2, p_prev[2]), ift.with_slot(p, 2, p_next[2])
-            st = _single(res, prob, entry, sname, x0, p, pb, pa, vs, rng)
-            if st is not None:
-                nt += 1
-                if entry == "state" and sname == "tight":
-                    last = st
+        vs = [vscale * rng.standard_normal(cfg["n"]) * 10.0 ** rng.uniform(-2, 2) for _ in range(2)]
+        if kind == "zero_cotangent":
+            vs = [onp.zeros(cfg["n"]), 1e-11 * rng.standard_normal(cfg["n"])]
+        if entry == "state":
+            pb, pa = p_prev, p_next
+        else:   # the legacy entry point can only restore the design slot: the other slots stay what the objective holds
+            pb, pa = ift.with_slot(p, 2, p_prev[2]), ift.with_slot(p, 2, p_next[2])
+        out = _single(res, prob, entry, sname, x0, p, pb, pa, vs, rng)
+        if out is not None:
+            nconv += 1
+            nnt += int(out["nontrivial"])
+            if entry == "state" and sname == "tight":
+                last = out["st"]
     # finite differences through plain forward solves vs a tight pull-back
-    if last is not None and res.status == "held":
-        import jax
+    if fd and last is not None and res.status == "held":
         s = _settings("tight")
         from optimism.inverse import NonlinearSolve as NS
         prob["obj"].p = p_prev
@@ -557,9 +640,70 @@ def _run_small_single(case, res):
         _adjoint_exits(res)
         stt = ift.StepRef(prob["derivs"](Uu, p), p)
         _fd_through_solve(res, prob, p, Uu, stt, {k: ct[k] for k in (0, 1, 2, 4)}, v, rng, 3e-3)
-    res.nontrivial = nt >= 2
-    if nt == 0 and res.status == "held":
+    return nconv, nnt, cond
+
+
+_ALL_COMBOS = [("state", "default"), ("state", "tight"), ("design", "default"), ("design", "tight")]
+
+
+def _run_small_single(case, res):
+    cfg = case["cfg"]
+    prob = _problem(cfg)
+    knobs = dict(case.get("knobs", {}))
+    res.count("dim_%02d" % cfg["n"])
+    res.count("slots_" + cfg["slots"])
+    if knobs.get("kind"):
+        res.count("corner_" + knobs["kind"])
+    nconv, nnt, cond = _small_eval(res, prob, cfg, case["seed"], knobs, _ALL_COMBOS)
+    res.count("cond_le_10" if cond <= 10 else "cond_gt_10")
+    res.nontrivial = nnt >= 2 or (knobs.get("kind") == "zero_cotangent" and nconv >= 2)
+    if nconv == 0 and res.status == "held":
         res.vacuous("no configuration reached a converged SPD equilibrium")
+    return res
+
+
+def _run_small_search(case, res):
+    """Margin-guided mutation (thorough tier): hill-climb the generator knobs on the largest observed/allowed ratio of the
+    cotangent comparison.  Every child is an ordinary evaluation whose violations count."""
+    cfg = case["cfg"]
+    prob = _problem(cfg)
+    rng = rng_of(derive_seed(case["seed"], "search"))
+    knobs = {"cond": 10.0 ** rng.uniform(0, 2), "sscale": 1.0, "vscale": 1.0, "x0scale": 0.1}
+    combos = [("state", "default"), ("state", "tight"), ("design", "tight")]
+
+    def ratio_of(k):
+        scratch = Res(case)
+        nconv, nnt, _ = _small_eval(scratch, prob, cfg, case["seed"], k, combos, fd=False)
+        r = max([v for c, v in scratch.ratios.items() if c.startswith("ift_cotangent")] + [0.0])
+        # merge
+        res.checks += scratch.checks
+        for c, v in scratch.ratios.items():
+            if v > res.ratios.get(c, -1.0):
+                res.ratios[c] = v
+        for c, v in scratch.obs.items():
+            res.obs[c] = res.obs.get(c, 0) + v
+        for v in scratch.violations:
+            res.violate(v["clause"], dict(v["detail"] or {}, knobs=k), v["mechanism"])
+        return (r if nconv else -1.0), nnt
+
+    best, nnt = ratio_of(knobs)
+    first = best
+    for _ in range(int(case.get("rounds", 16))):
+        child = dict(knobs)
+        which = ["cond", "sscale", "vscale", "x0scale"][int(rng.integers(4))]
+        child[which] = float(knobs[which] * 10.0 ** rng.uniform(-0.7, 0.7))
+        child["cond"] = float(min(max(child["cond"], 1.0), 1e6))
+        child["sscale"] = float(min(max(child["sscale"], 1e-3), 5.0))
+        child["x0scale"] = float(min(max(child["x0scale"], 0.0), 3.0))
+        r, k = ratio_of(child)
+        res.count("search_children")
+        if r > best:
+            best, knobs, nnt = r, child, max(nnt, k)
+            res.count("search_improvements")
+    res.obs["search_ratio_gain_log10_sum"] = res.obs.get("search_ratio_gain_log10_sum", 0) + (math.log10(best / first) if first > 0 and best > 0 else 0.0)
+    res.nontrivial = nnt >= 1
+    if best < 0 and res.status == "held":
+        res.vacuous("search never reached a converged SPD equilibrium")
     return res
 
 
@@ -636,8 +780,6 @@ def _run_fe(case, res):
     j2 = cfg["material"].startswith("j2")
     amp = rng.uniform(0.04, 0.08) if j2 else rng.uniform(0.1, 0.25)
     theta, app = gp.fe_inputs(prob, rng, amp)
-    if not fe["has_state"]:
-        theta = {k: v for k, v in theta.items() if k != 1}
     K = 3 if j2 else 2
     n = prob["n"]
     x0 = onp.zeros(n)
@@ -669,8 +811,7 @@ def _run_fe(case, res):
         Kl = K - 1
         S_prev = out_t["Ss"][Kl - 1] if (fe["has_state"] and Kl > 0) else (theta.get(1))
         vals = {0: scales[Kl][0] * theta[0], 2: theta[2], 4: scales[Kl][4] * theta[4]}
-        if fe["has_state"]:
-            vals[1] = _np(S_prev)
+        vals[1] = _np(S_prev) if fe["has_state"] else theta[1]
         p = gp.make_params(vals, app)
         pv = dict(vals)
         pv[0] = 0.8 * vals[0]
@@ -689,8 +830,8 @@ def _run_fe(case, res):
                     pb, pa = p_prev, p_next
                 else:
                     pb, pa = ift.with_slot(p, 2, p_prev[2]), ift.with_slot(p, 2, p_next[2])
-                st = _single(res, prob, entry, sname, xg, p, pb, pa, vv, rng)
-                if st is not None:
+                o1 = _single(res, prob, entry, sname, xg, p, pb, pa, vv, rng)
+                if o1 is not None and o1["nontrivial"]:
                     nt += 1
         # finite differences through forward solves (design + bc + time direction)
         if res.status == "held":
@@ -755,9 +896,12 @@ def _helper_setup(case):
     G = jax.grad(energy_pd, 0)
     upd_on = lambda U, s: mf.compute_updated_internal_variables(U, s)
     upd_X = lambda U, s, X: mech_adj(X).compute_updated_internal_variables(U, s)
-    H["dense"] = jax.jit(lambda U, s, X: {
-        "upd_s": jax.jacfwd(upd_on, 1)(U, s), "upd_u": jax.jacfwd(upd_on, 0)(U, s), "upd_x": jax.jacfwd(upd_X, 2)(U, s, X),
-        "res_s": jax.jacfwd(G, 2)(U, None, s, X), "res_x": jax.jacfwd(G, 3)(U, None, s, X)})
+    if case["material"].startswith("j2"):
+        H["dense"] = jax.jit(lambda U, s, X: {
+            "upd_s": jax.jacfwd(upd_on, 1)(U, s), "upd_u": jax.jacfwd(upd_on, 0)(U, s), "upd_x": jax.jacfwd(upd_X, 2)(U, s, X),
+            "res_s": jax.jacfwd(G, 2)(U, None, s, X), "res_x": jax.jacfwd(G, 3)(U, None, s, X)})
+    else:
+        H["dense"] = jax.jit(lambda U, s, X: {"res_x": jax.jacfwd(G, 3)(U, None, s, X)})
     H["direct_upd"] = jax.jit(lambda U, s, X: mech_direct(X).compute_updated_internal_variables(U, s))
     H["direct_res"] = jax.jit(lambda U, s, X: jax.grad(lambda u: mech_direct(X).compute_strain_energy(u, s))(U))
     H["upd"] = jax.jit(upd_on)
@@ -779,18 +923,21 @@ def _run_helper(case, res):
     mesh, mf = H["mesh"], H["mf"]
     c = _np(mesh.coords)
     j2 = case["material"].startswith("j2")
-    amp = rng.uniform(0.03, 0.08) if j2 else rng.uniform(0.1, 0.3)
+    amp = rng.uniform(0.008, 0.05) if j2 else rng.uniform(0.05, 0.2)
     st0 = mf.compute_initial_state()
     G0 = amp * rng.standard_normal((2, 2))
     U0 = np.asarray(c @ G0.T + 0.2 * amp * rng.standard_normal(c.shape))
     st1 = H["upd"](U0, st0) if j2 else st0
     U = np.asarray(_np(U0) * rng.uniform(0.6, 1.5) + 0.3 * amp * rng.standard_normal(c.shape))
-    tri = _np(mesh.coords)[onp.asarray(mesh.conns)[:, :3]] if False else None
     hmin = float(onp.sqrt(onp.min(onp.abs(_tri_areas(c, onp.asarray(mesh.conns)[:, onp.asarray(mesh.parentElement.vertexNodes)])))))
     X = np.asarray(c + 0.1 * hmin * rng.uniform(-1, 1, size=c.shape))
     ne, nq, ns = (int(z) for z in st1.shape)
     dense = {k: _np(v) for k, v in H["dense"](U, st1, X).items()}
-    TOL = 1e-10
+    if not all(bool(onp.all(onp.isfinite(v))) for v in dense.values()):
+        # the sampled displacement inverted an element (log J undefined): the energy is not smooth there
+        res.vacuous("energy derivatives not finite at the sampled state (inadmissible deformation)")
+        return res
+    TOL = HELPER_TOL
     if j2:
         st2 = _np(H["upd"](U, st1))
         ny = int(onp.sum(st2[..., 0] > _np(st1)[..., 0] + 1e-12))
@@ -852,7 +999,7 @@ def _run_helper(case, res):
     Xn = _np(X)
     fdr, _ = ift.richardson_central(lambda t: float(onp.sum(vx * _np(H["direct_res"](U, st1, np.asarray(Xn + t * dX))))), hh)
     lib = float(onp.sum(r5 * dX))
-    res.bound("helper_fd_residual_coords", abs(lib - fdr), FD_TOL * float(onp.linalg.norm(ref5)) + 1e-12, {"lib": lib, "fd": fdr})
+    res.bound("helper_fd_residual_coords", abs(lib - fdr), HELPER_FD_TOL * float(onp.linalg.norm(ref5)) + 1e-12, {"lib": lib, "fd": fdr})
     res.count("helper_fd_compared")
     if j2:
         act = []
@@ -864,7 +1011,7 @@ def _run_helper(case, res):
         fdu, _ = ift.richardson_central(phi, hh)
         if all(onp.array_equal(act[0], a) for a in act[1:]):
             lib = float(onp.sum(v3 * dX))
-            res.bound("helper_fd_ivs_coords", abs(lib - fdu), FD_TOL * float(onp.linalg.norm(r3)) + 1e-12, {"lib": lib, "fd": fdu})
+            res.bound("helper_fd_ivs_coords", abs(lib - fdu), HELPER_FD_TOL * float(onp.linalg.norm(r3)) + 1e-12, {"lib": lib, "fd": fdu})
             res.count("helper_fd_compared")
         else:
             res.count("fd_skipped_yield_set_changed")
@@ -946,12 +1093,41 @@ def _run_afs(case, res):
     return res
 
 
+def finalize(results, tier):
+    """Extra evidence: compiled configurations seen, adjoint-solve exit histogram, tolerance constants in force."""
+    cfgs, exits = {}, {}
+    for r in results:
+        c = r.get("case", {})
+        key = c.get("cls", "_")
+        if "cfg" in c:
+            key += ":" + ",".join("%s=%s" % (k, c["cfg"][k]) for k in sorted(c["cfg"]) if k != "kind")
+        elif c.get("cls") == "helper":
+            key += ":%s:%s:q%s" % (c["mesh"].get("kind"), c.get("material"), c.get("qdeg"))
+        elif c.get("cls") == "adjoint_space":
+            key += ":order%s:%s:%s" % (c.get("order"), c.get("mode"), c.get("kind"))
+        cfgs[key] = cfgs.get(key, 0) + 1
+        for k, v in r.get("obs", {}).items():
+            if k.startswith("adjoint_exit_"):
+                exits[k[len("adjoint_exit_"):]] = exits.get(k[len("adjoint_exit_"):], 0) + v
+    out = {"compiled_configurations": len(cfgs), "cases_per_configuration": cfgs, "adjoint_solve_exits": exits,
+           "tolerances": {"cg_bound_safety": SAFETY, "rounding_floor_rel": RND, "finite_difference_rel": FD_TOL,
+                          "helper_fd_rel": HELPER_FD_TOL, "helper_vs_dense_rel": HELPER_TOL, "objective_closure_rel": 1e-11, "adjoint_space_rel": 1e-14}}
+    miss = []
+    if exits.get("interior", 0) == 0:
+        miss.append("recorder around solve_trust_region_minimization never saw an adjoint solve end 'interior'")
+    if miss:
+        out["_missing"] = miss
+    return out
+
+
 def run_case(case):
     res = Res(case)
     _install_recorder()
     cls = case["cls"]
-    if cls == "small_single":
+    if cls in ("small_single", "small_corner"):
         return _run_small_single(case, res)
+    if cls == "small_search":
+        return _run_small_search(case, res)
     if cls == "small_chain":
         return _run_small_chain(case, res)
     if cls == "small_legacy_chain":
